@@ -536,7 +536,8 @@ def _run(pid, P, tier, seed, scratch, t0):
         by_cfg.setdefault(f['id'], set()).add(f['cfg'])
     for f in failures:
         tags = tags_of_failure(f, meta, SAFETY_PROPS)
-        if pid == 'C17' and by_cfg[f['id']] != set(r['cfg'] for r in runs[:2]):
+        base_cfgs = set(r['cfg'] for r in runs[:2])
+        if pid == 'C17' and f['cfg'] in base_cfgs and (by_cfg[f['id']] & base_cfgs) != base_cfgs:
             # discharged under one debug_assertions setting and not under the other: the two builds differ
             tags = tags + ['C17']
         if pid in tags:
